@@ -5,6 +5,7 @@ import (
 	"go/ast"
 	"go/token"
 	"go/types"
+	"os"
 	"sort"
 	"strings"
 
@@ -19,11 +20,14 @@ type Engine struct {
 	Canon *Canon
 	Sum   *Summaries
 	fns   map[ast.Node]*Fn
+	// NoInline switches the in-place expansion of helpers off (inline.go)
+	NoInline bool
+	inliner  *inliner
 }
 
 func NewEngine(p *load.Prog) *Engine {
 	sum := BuildSummaries(p)
-	return &Engine{Prog: p, Canon: &Canon{Prog: p, Sum: sum}, Sum: sum, fns: map[ast.Node]*Fn{}}
+	return &Engine{Prog: p, Canon: &Canon{Prog: p, Sum: sum}, Sum: sum, fns: map[ast.Node]*Fn{}, NoInline: os.Getenv("ASV_NOINLINE") == "1"}
 }
 
 // Fn is one function body (declaration or literal) prepared for analysis.
@@ -38,7 +42,18 @@ type Fn struct {
 	volatile  map[types.Object]bool
 	addrTaken map[types.Object]bool
 	where     map[ast.Node]nodeRef
+	whereAll  map[ast.Node][]nodeRef
 	preds     map[int32][]edge
+	// expansion of helpers (inline.go)
+	synthetic   map[ast.Node]bool
+	retMarker   map[ast.Node]bool
+	inlAt       map[ast.Node][]*InlSite
+	inlCall     map[*ast.CallExpr]bool
+	bodies      []*load.FuncInfo
+	rootBlock   map[*cfg.Block]bool
+	extraLocals map[types.Object]bool
+	rangeBody   map[int32]map[int32]bool
+	fresh       map[types.Object]bool
 	liveIn    map[int32]map[types.Object]bool
 	locals    map[types.Object]bool
 	// PostFacts: formulas that hold right after the given CFG node (facts
@@ -81,7 +96,7 @@ func (e *Engine) FnOf(fi *load.FuncInfo) *Fn {
 	if f, ok := e.fns[fi.Decl]; ok {
 		return f
 	}
-	f := e.prepare(fi.Pkg.TypesInfo, fi.Obj.FullName(), fi.Decl, fi.Decl.Body, fi.Decl.Type)
+	f := e.prepare(fi.Pkg.TypesInfo, fi.Obj.FullName(), fi.Decl, fi.Decl.Body, fi.Decl.Type, fi.Pkg.Types)
 	e.fns[fi.Decl] = f
 	return f
 }
@@ -91,15 +106,22 @@ func (e *Engine) FnOfLit(info *types.Info, lit *ast.FuncLit, name string) *Fn {
 	if f, ok := e.fns[lit]; ok {
 		return f
 	}
-	f := e.prepare(info, name, lit, lit.Body, lit.Type)
+	var pkg *types.Package
+	if pk := e.Prog.PkgOfPos(lit.Pos()); pk != nil && pk.TypesInfo == info {
+		pkg = pk.Types
+	}
+	f := e.prepare(info, name, lit, lit.Body, lit.Type, pkg)
 	e.fns[lit] = f
 	return f
 }
 
-func (e *Engine) prepare(info *types.Info, name string, node ast.Node, body *ast.BlockStmt, typ *ast.FuncType) *Fn {
+func (e *Engine) prepare(info *types.Info, name string, node ast.Node, body *ast.BlockStmt, typ *ast.FuncType, pkg *types.Package) *Fn {
 	f := &Fn{Eng: e, Info: info, Name: name, Node: node, Body: body, Type: typ,
-		volatile: map[types.Object]bool{}, addrTaken: map[types.Object]bool{}, where: map[ast.Node]nodeRef{}, preds: map[int32][]edge{}}
+		volatile: map[types.Object]bool{}, addrTaken: map[types.Object]bool{}, where: map[ast.Node]nodeRef{}, whereAll: map[ast.Node][]nodeRef{}, preds: map[int32][]edge{},
+		synthetic: map[ast.Node]bool{}, retMarker: map[ast.Node]bool{}, inlAt: map[ast.Node][]*InlSite{}, inlCall: map[*ast.CallExpr]bool{},
+		rootBlock: map[*cfg.Block]bool{}, extraLocals: map[types.Object]bool{}, rangeBody: map[int32]map[int32]bool{}}
 	f.CFG = cfg.New(body, func(c *ast.CallExpr) bool { return !NoReturn(info, c) })
+	f.expand(pkg)
 	// variables assigned inside nested literals, and address-taken variables
 	var inLit int
 	var walk func(n ast.Node) bool
@@ -141,17 +163,41 @@ func (e *Engine) prepare(info *types.Info, name string, node ast.Node, body *ast
 		}
 		return true
 	}
-	ast.Inspect(body, walk)
+	for _, bd := range f.Bodies() {
+		ast.Inspect(bd, walk)
+	}
+	f.fresh = ownedFresh(info, f.Bodies())
 	for _, b := range f.CFG.Blocks {
 		if !b.Live {
 			continue
 		}
 		for i, n := range b.Nodes {
-			f.where[n] = nodeRef{b, i}
+			if _, dup := f.where[n]; !dup {
+				f.where[n] = nodeRef{b, i}
+			}
+			f.whereAll[n] = append(f.whereAll[n], nodeRef{b, i})
 		}
 		for si, s := range b.Succs {
 			f.preds[s.Index] = append(f.preds[s.Index], edge{b, si})
 		}
+	}
+	// the blocks of each range loop's body (reachable from the body edge without passing the head)
+	for _, h := range f.CFG.Blocks {
+		if !h.Live || h.Kind != cfg.KindRangeLoop || len(h.Succs) != 2 {
+			continue
+		}
+		in := map[int32]bool{}
+		work := []*cfg.Block{h.Succs[0]}
+		for len(work) > 0 {
+			x := work[len(work)-1]
+			work = work[:len(work)-1]
+			if x == h || in[x.Index] {
+				continue
+			}
+			in[x.Index] = true
+			work = append(work, x.Succs...)
+		}
+		f.rangeBody[h.Index] = in
 	}
 	f.liveness()
 	return f
@@ -164,14 +210,20 @@ func (f *Fn) liveness() {
 	f.locals = map[types.Object]bool{}
 	use := map[int32]map[types.Object]bool{}
 	// every local variable defined inside the body; parameters are kept always live
-	ast.Inspect(f.Body, func(n ast.Node) bool {
-		if id, ok := n.(*ast.Ident); ok {
-			if v, ok := f.Info.Defs[id].(*types.Var); ok && !v.IsField() {
-				f.locals[v] = true
+	// (those of expanded helpers are ordinary locals here)
+	for _, bd := range f.Bodies() {
+		ast.Inspect(bd, func(n ast.Node) bool {
+			if id, ok := n.(*ast.Ident); ok {
+				if v, ok := f.Info.Defs[id].(*types.Var); ok && !v.IsField() {
+					f.locals[v] = true
+				}
 			}
-		}
-		return true
-	})
+			return true
+		})
+	}
+	for obj := range f.extraLocals {
+		f.locals[obj] = true
+	}
 	for obj := range f.volatile {
 		delete(f.locals, obj)
 	}
@@ -179,7 +231,14 @@ func (f *Fn) liveness() {
 		delete(f.locals, obj)
 	}
 	// variables mentioned inside function literals or defers are always live
-	ast.Inspect(f.Body, func(n ast.Node) bool {
+	for _, bd := range f.Bodies() {
+		f.closureUses(bd)
+	}
+	f.livenessRest(use)
+}
+
+func (f *Fn) closureUses(body *ast.BlockStmt) {
+	ast.Inspect(body, func(n ast.Node) bool {
 		switch x := n.(type) {
 		case *ast.FuncLit:
 			ast.Inspect(x.Body, func(m ast.Node) bool {
@@ -204,6 +263,9 @@ func (f *Fn) liveness() {
 		}
 		return true
 	})
+}
+
+func (f *Fn) livenessRest(use map[int32]map[types.Object]bool) {
 	for _, b := range f.CFG.Blocks {
 		if !b.Live {
 			continue
@@ -211,6 +273,14 @@ func (f *Fn) liveness() {
 		u := map[types.Object]bool{}
 		use[b.Index] = u
 		for _, n := range b.Nodes {
+			// a statement whose call was expanded reads the call's result temporaries
+			for _, s := range f.inlAt[n] {
+				for _, v := range s.Res {
+					if f.locals[v] {
+						u[v] = true
+					}
+				}
+			}
 			ast.Inspect(n, func(m ast.Node) bool {
 				if id, ok := m.(*ast.Ident); ok {
 					if obj := f.Info.Uses[id]; obj != nil && f.locals[obj] {
@@ -327,6 +397,9 @@ func (f *Fn) Locate(n ast.Node) (*cfg.Block, int, ast.Node, bool) {
 	var best ast.Node
 	var bref nodeRef
 	for cn, r := range f.where {
+		if f.synthetic[cn] {
+			continue
+		}
 		if cn.Pos() <= n.Pos() && n.End() <= cn.End() {
 			// skip if n is inside a function literal nested in cn (belongs to another Fn)
 			if best == nil || (cn.End()-cn.Pos()) < (best.End()-best.Pos()) {
@@ -337,6 +410,9 @@ func (f *Fn) Locate(n ast.Node) (*cfg.Block, int, ast.Node, bool) {
 	if best == nil {
 		// n is a composite statement (if/for/switch ...): take the first CFG node inside it
 		for cn, r := range f.where {
+			if f.synthetic[cn] {
+				continue
+			}
 			if n.Pos() <= cn.Pos() && cn.End() <= n.End() {
 				if best == nil || cn.Pos() < best.Pos() {
 					best, bref = cn, r
@@ -385,6 +461,8 @@ type Analysis struct {
 	StopAt map[ast.Node]bool
 	// KeepDead keeps facts about dead local variables (for queries about them)
 	KeepDead bool
+	// cur: the expanded calls of the CFG node being evaluated
+	cur []*InlSite
 }
 
 // Analyze runs from the function entry with an assumption (True for none).
@@ -454,7 +532,7 @@ func (f *Fn) ImplicitReturn() *ast.ReturnStmt {
 		return true
 	})
 	for _, b := range f.CFG.Blocks {
-		if !b.Live || len(b.Nodes) == 0 {
+		if !b.Live || len(b.Nodes) == 0 || !f.IsRootBlock(b) {
 			continue
 		}
 		if r, ok := b.Nodes[len(b.Nodes)-1].(*ast.ReturnStmt); ok && !real[r] {
@@ -536,13 +614,8 @@ func (a *Analysis) run(start *cfg.Block, idx int, init State) {
 			}
 			in = Join(in, contrib)
 			if isRange {
-				inside := false
-				if len(e.from.Nodes) > 0 {
-					inside = contains(rs.Body, e.from.Nodes[0])
-				} else if e.from.Stmt != nil && e.from.Stmt != ast.Stmt(rs) {
-					inside = contains(rs.Body, e.from.Stmt)
-				}
-				if inside {
+				_ = rs
+				if f.rangeBody[b.Index][e.from.Index] {
 					inBack = Join(inBack, contrib)
 				} else {
 					inEntry = Join(inEntry, contrib)
@@ -661,10 +734,12 @@ func (a *Analysis) flowBlock(b *cfg.Block, idx int, st State) []State {
 	outs := make([]State, len(b.Succs))
 	switch {
 	case cond != nil:
+		st = a.enter(st, cond)
 		if idx <= n-1 {
 			st = a.callKills(st, cond)
 		}
-		fm := f.Eng.Canon.Formula(f.Info, cond)
+		fm := a.formula(cond)
+		a.cur = nil
 		// whatever the outcome, the left-most operand chain was evaluated: the pointers it went through are non-nil
 		st = st.Assume(derefFacts(fm))
 		outs[0] = a.clean(st.Assume(fm))
@@ -773,11 +848,18 @@ func derefFacts(f *Formula) *Formula {
 
 // StateBefore returns the facts just before the CFG node containing n.
 func (a *Analysis) StateBefore(n ast.Node) State {
-	b, idx, _, ok := a.Fn.Locate(n)
+	b, idx, root, ok := a.Fn.Locate(n)
 	if !ok {
 		return Unreachable()
 	}
-	return a.stateAt(b, idx)
+	res := a.stateAt(b, idx)
+	// a node of a helper expanded at several call sites: all its instances
+	if all := a.Fn.whereAll[root]; len(all) > 1 {
+		for _, r := range all[1:] {
+			res = Join(res, a.stateAt(r.b, r.idx))
+		}
+	}
+	return res
 }
 
 func (a *Analysis) stateAt(b *cfg.Block, idx int) State {
@@ -801,11 +883,17 @@ func (a *Analysis) stateAt(b *cfg.Block, idx int) State {
 
 // StateAfter returns the facts just after the CFG node containing n.
 func (a *Analysis) StateAfter(n ast.Node) State {
-	b, idx, _, ok := a.Fn.Locate(n)
+	b, idx, root, ok := a.Fn.Locate(n)
 	if !ok {
 		return Unreachable()
 	}
-	return a.stateAt(b, idx+1)
+	res := a.stateAt(b, idx+1)
+	if all := a.Fn.whereAll[root]; len(all) > 1 {
+		for _, r := range all[1:] {
+			res = Join(res, a.stateAt(r.b, r.idx+1))
+		}
+	}
+	return res
 }
 
 // Reached reports whether the CFG node containing n is reachable in this analysis.
@@ -837,6 +925,8 @@ func (a *Analysis) StateAtExpr(e ast.Expr) State {
 		return Unreachable()
 	}
 	st := a.stateAt(b, idx)
+	st = a.enter(st, root)
+	defer func() { a.cur = nil }()
 	return a.descend(st, root, e)
 }
 
@@ -845,7 +935,6 @@ func contains(outer, inner ast.Node) bool {
 }
 
 func (a *Analysis) descend(st State, n ast.Node, target ast.Expr) State {
-	f := a.Fn
 	for n != target {
 		switch x := n.(type) {
 		case *ast.BinaryExpr:
@@ -855,7 +944,7 @@ func (a *Analysis) descend(st State, n ast.Node, target ast.Expr) State {
 					continue
 				}
 				st = a.callKills(st, x.X)
-				fm := f.Eng.Canon.Formula(f.Info, x.X)
+				fm := a.formula(x.X)
 				if x.Op == token.LOR {
 					fm = Not(fm)
 				}
@@ -887,7 +976,81 @@ func (a *Analysis) descend(st State, n ast.Node, target ast.Expr) State {
 // ---------------------------------------------------------------------------
 // transfer functions
 
-func (a *Analysis) term(e ast.Expr) *Term { return a.Fn.Eng.Canon.Term(a.Fn.Info, e) }
+func (a *Analysis) term(e ast.Expr) *Term {
+	t := a.Fn.Eng.Canon.Term(a.Fn.Info, e)
+	for _, s := range a.cur {
+		if len(s.Res) == 1 && !a.sitePure(s) {
+			ct := a.Fn.Eng.Canon.Term(a.Fn.Info, s.Call)
+			t = t.Subst(ct.key, Var(s.Res[0]))
+		}
+	}
+	return t
+}
+
+func (a *Analysis) formula(e ast.Expr) *Formula {
+	fm := a.Fn.Eng.Canon.Formula(a.Fn.Info, e)
+	for _, s := range a.cur {
+		if len(s.Res) == 1 && !a.sitePure(s) {
+			ct := a.Fn.Eng.Canon.Term(a.Fn.Info, s.Call)
+			fm = substFormula(fm, ct.key, Var(s.Res[0]))
+		}
+	}
+	return fm
+}
+
+// sitePure: the expanded call is a pure term (then it stays in facts as a term, known equal to its result temporary).
+func (a *Analysis) sitePure(s *InlSite) bool {
+	if !s.pureSet {
+		s.pureSet = true
+		ct := a.Fn.Eng.Canon.Term(a.Fn.Info, s.Call)
+		s.Pure = a.Fn.Eng.Canon.PureTerm(ct)
+	}
+	return s.Pure
+}
+
+func substFormula(f *Formula, from string, to *Term) *Formula {
+	switch f.Op {
+	case 'A':
+		if !f.Atom.Mentions(func(t *Term) bool { return t.key == from }) {
+			return f
+		}
+		return foldAtom(f.Atom.Subst(from, to))
+	case 'T', 'F':
+		return f
+	}
+	subs := make([]*Formula, len(f.Sub))
+	for i, s := range f.Sub {
+		subs[i] = substFormula(s, from, to)
+	}
+	switch f.Op {
+	case '&':
+		return And(subs...)
+	case '|':
+		return Or(subs...)
+	case '!':
+		return Not(subs[0])
+	}
+	return f
+}
+
+// enter prepares the evaluation of CFG node n: the result temporaries of the
+// calls expanded before it stand for those calls.
+func (a *Analysis) enter(st State, n ast.Node) State {
+	a.cur = a.Fn.inlAt[n]
+	for _, s := range a.cur {
+		if len(s.Res) != 1 || !a.sitePure(s) || !st.Reachable() {
+			continue
+		}
+		rv := Var(s.Res[0])
+		if isBool(s.Res[0].Type()) {
+			fm := a.Fn.Eng.Canon.Formula(a.Fn.Info, s.Call)
+			st = Join(st.Assume(And(fm, FBool(rv))), st.Assume(And(Not(fm), Not(FBool(rv)))))
+		} else {
+			st = st.Assume(FEq(a.Fn.Eng.Canon.Term(a.Fn.Info, s.Call), rv))
+		}
+	}
+	return st
+}
 
 // Term / Formula expose canonicalisation in the function's package.
 func (f *Fn) Term(e ast.Expr) *Term       { return f.Eng.Canon.Term(f.Info, e) }
@@ -900,11 +1063,21 @@ func (a *Analysis) step(st State, n ast.Node) State {
 	if a.StopAt[n] {
 		return Unreachable()
 	}
+	if a.Fn.retMarker[n] {
+		return st // the return of an expanded helper: its results are stored by the nodes that follow
+	}
+	st = a.enter(st, n)
+	defer func() { a.cur = nil }()
 	switch x := n.(type) {
 	case *ast.AssignStmt:
 		st = a.callKills(st, x)
 		if len(x.Lhs) == len(x.Rhs) && len(x.Lhs) == 1 {
 			st = a.assign(st, x.Lhs[0], x.Rhs[0], x.Tok)
+		} else if s := a.tupleSite(x); s != nil {
+			// v1, v2 := helper(...) with the helper expanded: each variable takes its result temporary
+			for k, l := range x.Lhs {
+				st = a.assign(st, l, s.ResID[k], x.Tok)
+			}
 		} else {
 			for _, l := range x.Lhs {
 				st = a.killLHS(st, l)
@@ -943,6 +1116,23 @@ func (a *Analysis) step(st State, n ast.Node) State {
 		st = st.Assume(pf)
 	}
 	return a.clean(st)
+}
+
+// tupleSite: the statement assigns the results of one expanded call.
+func (a *Analysis) tupleSite(x *ast.AssignStmt) *InlSite {
+	if len(x.Rhs) != 1 {
+		return nil
+	}
+	call, ok := ast.Unparen(x.Rhs[0]).(*ast.CallExpr)
+	if !ok {
+		return nil
+	}
+	for _, s := range a.cur {
+		if s.Call == call && len(s.Res) == len(x.Lhs) {
+			return s
+		}
+	}
+	return nil
 }
 
 func zeroFormula(v *Term) *Formula {
@@ -1106,7 +1296,7 @@ func (a *Analysis) assign(st State, lhs, rhs ast.Expr, tok token.Token) State {
 		return st
 	}
 	if isBool(lt) {
-		rf = f.Formula(rhs)
+		rf = a.formula(rhs)
 	} else {
 		rt = a.term(rhs)
 	}
@@ -1263,9 +1453,27 @@ func (a *Analysis) callKills(st State, n ast.Node) State {
 		case *ast.FuncLit:
 			return false
 		case *ast.CallExpr:
+			if f.inlCall[x] {
+				return false // expanded in place: its body ran before this node
+			}
+			f.Eng.Sum.curFresh, f.Eng.Sum.hitFresh = f.fresh, nil
 			w := f.Eng.CallWrites(f.Info, x)
+			hit := f.Eng.Sum.hitFresh
+			f.Eng.Sum.curFresh, f.Eng.Sum.hitFresh = nil, nil
 			if len(w) > 0 {
 				st = st.Kill(func(at *Atom) bool { return f.Eng.Sum.AtomKilledBy(at, w, f.addrTaken) })
+			}
+			// an external mutator wrote through a local that alone reaches its storage:
+			// only facts about what hangs off that local are invalidated
+			for _, o := range hit {
+				st = st.Kill(func(at *Atom) bool {
+					for _, t := range at.Terms() {
+						if t.K != 'v' && t.Mentions(func(s *Term) bool { return s.K == 'v' && s.Obj == o }) {
+							return true
+						}
+					}
+					return false
+				})
 			}
 		}
 		return true
